@@ -4,6 +4,7 @@ import (
 	"fmt"
 	"reflect"
 	"runtime"
+	"sort"
 	"strings"
 
 	"0chain.net/chaincore/block"
@@ -815,7 +816,11 @@ func (msc *MinerSmartContract) createMagicBlock(
 		zap.Int64("view change", magicBlock.StartingRound),
 		zap.Int("dkg miners num", len(dkgMinersList.SimpleNodes)))
 
-	for _, v := range dkgMinersList.SimpleNodes {
+	// in id order, so that the add-miner events are emitted in the same order by every node
+	minerIDs := simpleNodesKeys(dkgMinersList.SimpleNodes)
+	sort.Strings(minerIDs)
+	for _, id := range minerIDs {
+		v := dkgMinersList.SimpleNodes[id]
 		n := node.Provider()
 		n.ID = v.ID
 		n.N2NHost = v.N2NHost
